@@ -104,3 +104,62 @@ Theorem reassign_has_no_live_caller :
   Gen.C06.set_elected_clears_signdata = true /\ Gen.C06.update_estimate_deletes_confirms = true.
 Proof. exact (conj eq_refl (conj eq_refl eq_refl)). Qed.
 Print Assumptions reassign_has_no_live_caller.
+
+(** ---- second round ---- *)
+
+(** Clearing is total.  After an accepted UpdateBatchGasEstimate (estimate elected), cancel, executed or time-out of
+    batch (nonce, contract), NO confirmation of that batch is left in the store — the statement ranges over the whole
+    confirmation store of every history, there is no bound on how many confirmations a batch had collected.
+    ([delete_confirms] is a filter over all stored confirmations only as long as the translator finds nothing in
+    DeleteBatchConfirms / GetBatchConfirmByNonceAndTokenContract / IterateBatchConfirmByNonceAndTokenContract that can
+    end the listing early; see [confirm_readers_read_everything].) *)
+Theorem no_confirm_survives_clearing :
+  forall (Sig : Type) (verify : cbytes -> Sig -> Z -> bool) (ops : list (cop Sig)) (o : cop Sig) (nonce contract : Z),
+  (exists e, o = BUpdateEstimate nonce contract e) \/ o = BRemove nonce contract ->
+  snd (cstep Sig verify (crun Sig verify ops) o) = COk ->
+  forall c, In c (cs_confirms (fst (cstep Sig verify (crun Sig verify ops) o))) -> of_batch nonce contract c = false.
+Proof. exact no_confirm_survives_clearing_all. Qed.
+Print Assumptions no_confirm_survives_clearing.
+
+(** The orchestrator's validator: every stored confirmation was given by a validator that was bonded or unbonding at
+    that moment (the staking status is part of the modelled state and changes arbitrarily through [BSetStatus]);
+    a confirmation sent for an unbonded validator or for an account that is no validator leaves the state as it was.
+    This discharges what round one listed as an assumption. *)
+Theorem confirms_only_from_bonded_or_unbonding :
+  forall (Sig : Type) (verify : cbytes -> Sig -> Z -> bool) (ops : list (cop Sig)) (c : confirm Sig),
+  In c (cs_confirms (crun Sig verify ops)) ->
+  exists pre post,
+    ops = pre ++ BConfirm (cf_val c) (cf_nonce c) (cf_contract c) (cf_signer c) (cf_sig c) :: post /\
+    (status_of (cs_status (crun Sig verify pre)) (cf_val c) = st_unbonding \/
+     status_of (cs_status (crun Sig verify pre)) (cf_val c) = st_bonded).
+Proof. exact confirms_only_from_bonded_or_unbonding_all. Qed.
+Print Assumptions confirms_only_from_bonded_or_unbonding.
+
+Theorem unbonded_cannot_confirm :
+  forall (Sig : Type) (verify : cbytes -> Sig -> Z -> bool) (s : cstate Sig) (v nonce contract signer : Z) (sg : Sig),
+  status_of (cs_status s) v = st_none \/ status_of (cs_status s) v = st_unbonded ->
+  fst (cstep Sig verify s (BConfirm v nonce contract signer sg)) = s /\
+  snd (cstep Sig verify s (BConfirm v nonce contract signer sg)) <> COk.
+Proof. exact unbonded_cannot_confirm_all. Qed.
+Print Assumptions unbonded_cannot_confirm.
+
+(** What the translator found in the source about the readers the clearing and duplicate checks depend on: none of the
+    functions of skyway's confirmation store reachable from DeleteBatchConfirms and ConfirmBatch, nor the consensus
+    queue's AddSignature, contains a construct that can end its scan early or bound it (a limit, a break that is not
+    the caller's callback, a callback that asks to stop, a non-error return inside a loop, a slice bound); cancel and
+    executed delete the confirmations; confirmHandlerCommon has its bonded-or-unbonding gate. *)
+Theorem confirm_readers_read_everything :
+  Gen.C06.delete_confirms_reads_all = true /\ Gen.C06.dup_checks_read_all = true /\
+  forallb (fun p : string * list string => match snd p with [] => true | _ => false end) Gen.C06.confirm_readers = true /\
+  Gen.C06.cancel_deletes_confirms = true /\ Gen.C06.executed_deletes_confirms = true /\
+  Gen.C06.confirm_requires_bonded_or_unbonding = true.
+Proof. exact (conj eq_refl (conj eq_refl (conj eq_refl (conj eq_refl (conj eq_refl eq_refl))))). Qed.
+Print Assumptions confirm_readers_read_everything.
+
+(** valset.GetSigningKey (the model's [lookup_key]: chain and named address of one of the validator's accounts) has a
+    single key-returning exit and it has compared chain type, chain reference AND address with the arguments: there is
+    no exit that hands out the key of an account registered under another chain reference or another address. *)
+Theorem signing_key_lookup_is_exact :
+  Gen.C06.signing_key_match_fields = ["Address"; "ChainReferenceID"; "ChainType"]%string /\ Gen.C06.signing_key_exits = 1.
+Proof. exact (conj eq_refl eq_refl). Qed.
+Print Assumptions signing_key_lookup_is_exact.
